@@ -66,7 +66,7 @@ def sim_inputs(seed, count, tier, dims=(3,), pers=(False, True), start_id=1):
     out = []
     gmax = 8 if tier == "thorough" else 6
     nmax = 24 if tier == "thorough" else 12
-    kinds = ["uniform", "sublattice", "cluster", "planar", "walls", "aniso", "line"]
+    kinds = ["uniform", "sublattice", "cluster", "planar", "walls", "aniso", "line", "fcc", "bcc"]
     i = 0
     while len(out) < count:
         kind = kinds[i % len(kinds)]
@@ -109,6 +109,13 @@ def sim_inputs(seed, count, tier, dims=(3,), pers=(False, True), start_id=1):
             base = rng.choice(pts)
             cand = [p for p in pts if all(p[k] == base[k] for k in range(3) if k != ax)]
             sel = cand if len(cand) <= n else rng.sample(cand, n)
+        elif kind in ("fcc", "bcc"):
+            # face-centred / body-centred sub-lattices: cells with vertices where four or more faces meet
+            if kind == "fcc":
+                cand = [p for p in pts if sum(p[:dim]) % 2 == 0]
+            else:
+                cand = [p for p in pts if len({c % 2 for c in p[:dim]}) == 1]
+            sel = cand if len(cand) <= 2 * nmax else rng.sample(cand, 2 * nmax)
         elif kind == "walls":
             hi = [g - 1 if per else g for g in G]
             cand = [p for p in pts if any(p[k] in (0, hi[k]) for k in range(dim))]
@@ -424,7 +431,7 @@ def generic_lattice_check(prop, tier, seed, quick_fams, thorough_fams, sim_quick
     out.assumptions = BASE_ASSUMPTIONS
     if with_tess:
         # pipeline F: float inputs (general position, many-faced cells, masks) through the tess recorder + VTessTrace
-        res, verdicts, trace_file = tess_pipeline(tier, seed, prop)
+        res, verdicts, trace_file = tess_pipeline(tier, seed, prop, closepairs=(6 if tier == "quick" else 40) if prop == "C05" else 0)
         apply_tess(out, res, verdicts, trace_file, prop)
         out.coverage["rule"] += " || pipeline F: " + TESS_RULE
     return out
@@ -560,7 +567,7 @@ def vtess_model(out, tier):
         log("VTess model %s: %d distinct states (%.1fs)" % (name, r.distinct, r.wall))
 
 
-def tess_pipeline(tier, seed, tag, count=None, nmax=None):
+def tess_pipeline(tier, seed, tag, count=None, nmax=None, closepairs=0):
     ensure_dirs()
     binp = build_harness()
     res_file = os.path.join(OUT, "%s_tess_result.json" % tag)
@@ -569,7 +576,7 @@ def tess_pipeline(tier, seed, tag, count=None, nmax=None):
     nmax = nmax or (24 if tier == "quick" else 40)
     t0 = time.time()
     run_harness(binp, ["tess", "--out", res_file, "--trace", trace_file, "--tier", tier, "--seed", str(seed),
-                       "--count", str(count), "--nmax", str(nmax)])
+                       "--count", str(count), "--nmax", str(nmax), "--closepairs", str(closepairs)])
     res = json.load(open(res_file))
     log("tess recorder: %s (%.1fs)" % (res["stats"], time.time() - t0))
     cfg = os.path.join(OUT, "tlc", "vtesstrace.cfg")
@@ -583,14 +590,31 @@ def tess_pipeline(tier, seed, tag, count=None, nmax=None):
     return res, verdicts, trace_file
 
 
+F11_SITES = ("No suitable vertex found to extend boundary!", "Degenerate 3-plane intersection!")
+
+
+def is_F11(inp, message):
+    """Signature of known finding F11: two generators closer than 1e-7 of the box scale, or three generators mutually closer than 1e-4
+    of it (active subspace, nearest image); a panic must come from one of the two sites guarding broken topology."""
+    if not (inp.get("minsep", 1.0) < 1e-7 or inp.get("trisep", 1.0) < 1e-4):
+        return False
+    return message is None or any(sx in message for sx in F11_SITES)
+
+
 def apply_tess(out, res, verdicts, trace_file, prop):
     tagp = "[%s" % prop
     lines_ok = 0
     bad_lines = {}
+    close_ids = {m["id"] for m in res.get("inputs_meta", []) if m["minsep"] < 1e-7 or m.get("trisep", 1.0) < 1e-4}
     for v in verdicts:
         mine = [x for x in v["failed"] if prop in x[x.rfind("["):]]
         if not v["failed"]:
             lines_ok += 1
+        if v["id"] in close_ids:
+            # F11 territory (two generators closer than 1e-7 of the box): what the library returns there is attributed to the finding
+            if v["failed"] and prop == "C05":
+                out.known_hit("F11", {"trace_line": v["line"], "input_id": v["id"], "failed": v["failed"]})
+            continue
         for x in mine:
             bad_lines.setdefault(x, []).append(v["line"])
     if bad_lines:
@@ -603,13 +627,26 @@ def apply_tess(out, res, verdicts, trace_file, prop):
                     recs[k] = json.loads(line)
         for x, ls in bad_lines.items():
             out.violation("VTessTrace rejected %d recorded run(s): %s" % (len(ls), x), {"trace_line": recs.get(ls[0]), "lines": ls[:20]})
+    f11_ids = set()
     for f in res["failures"]:
-        if f["prop"] == prop:
+        if f["prop"] == prop or (prop == "C05" and f["prop"] in ("C01", "C02", "C03", "C04")):
+            if is_F11(f["input"], None):
+                out.known_hit("F11", f)
+                f11_ids.add(f["input"]["id"])
+                continue
+            if f["prop"] != prop:
+                continue
             out.violation("%s [%s] input kind=%s n=%d mask=%s detail=%s" % (f["what"], f["prop"], f["input"]["kind"], len(f["input"]["gens"]),
                                                                   json.dumps(f["mask"])[:80], json.dumps(f["detail"])[:300]), f)
     for p in res["panics"]:
         if prop == "C05":
+            if is_F11(p["input"], p["message"]):
+                out.known_hit("F11", p)
+                f11_ids.add(p["input"]["id"])
+                continue
             out.violation("panic on a valid general-position input: %s" % p["message"], p)
+    cov_f11 = sorted(f11_ids)
+    out.coverage["inputs_in_F11_territory_that_failed"] = len(cov_f11)
     cov = out.coverage
     cov["traces_validated_against_impl"] = cov.get("traces_validated_against_impl", 0) + lines_ok
     cov["evaluations"] = cov.get("evaluations", 0) + res["stats"]["lines"]
